@@ -669,7 +669,10 @@ Definition sa_step (vr : vresources) (fixed : list vertex) (s : sa_state)
            (src : vertex) (dst : chip) (accept : bool) : result (sa_state * bool) :=
   match zassoc src (st_pl s), demand_of vr src with
   | Some src_loc, Some src_res =>
-      if negb (live (st_m s) dst) then Ok (s, false)
+      (* the code draws src among the movable vertices and redraws dst until it differs from src's chip:
+         any other draw is not a draw of the code (reported as an invalid oracle, not as an outcome) *)
+      if zmem src fixed || chip_eqb dst src_loc then OutOfFuel
+      else if negb (live (st_m s) dst) then Ok (s, false)
       else
         match mget (st_m s) dst, lv_get dst (st_l2v s), mget (st_m s) src_loc with
         | Some dst_cr, Some dst_vs, Some src_cr =>
